@@ -373,6 +373,10 @@ class Interp:
             x = self.get(values, ins[0])
             b, e, st = (self.get(values, ins[k]).flatten() for k in (1, 2, 3))
             return [x[tuple(slice(int(bb), int(ee), int(ss)) for bb, ee, ss in zip(b, e, st))]]
+        if code == "TILE":
+            return [np.tile(self.get(values, ins[0]), [int(v) for v in self.get(values, ins[1]).flatten()])]
+        if code == "GATHER":
+            return [np.take(self.get(values, ins[0]), self.get(values, ins[1]).astype(np.int64), axis=opts.get("Axis", 0))]
         if code == "SPLIT_V":
             x = self.get(values, ins[0])
             sizes = [int(v) for v in self.get(values, ins[1]).flatten()]
